@@ -61,11 +61,18 @@ def material(rng, signed_bcoh=False):
     b = rng.logu(0.05, 200.0)
     if signed_bcoh and rng.random() < 0.25:
         b = -b
-    return {"rho": rng.logu(1e-3, 2.0), "bcoh": b, "btot": rng.choice([0.0, rng.logu(0.05, 300.0), -rng.logu(0.05, 3.0)])}
+    return {"rho": rng.logu(1e-3, 2.0), "bcoh": b, "btot": rng.choice([0.0, rng.logu(0.05, 300.0), -rng.logu(0.05, 3.0)]),
+            "kworder": rng.randint(0, 5)}
+
+
+_ORDERS = [("rho", "<b_coh>^2", "<b_tot^2>"), ("rho", "<b_tot^2>", "<b_coh>^2"), ("<b_coh>^2", "rho", "<b_tot^2>"),
+           ("<b_coh>^2", "<b_tot^2>", "rho"), ("<b_tot^2>", "rho", "<b_coh>^2"), ("<b_tot^2>", "<b_coh>^2", "rho")]
 
 
 def kwargs_of(m, **extra):
-    k = {"rho": m["rho"], "<b_coh>^2": m["bcoh"], "<b_tot^2>": m["btot"]}
+    """the material constants as keywords, in the order this caller happens to write them"""
+    vals = {"rho": m["rho"], "<b_coh>^2": m["bcoh"], "<b_tot^2>": m["btot"]}
+    k = {name: vals[name] for name in _ORDERS[m.get("kworder", 0) % 6]}
     k.update(extra)
     return k
 
@@ -107,6 +114,14 @@ def gen_conv_cases(rng, tier, space, channel, signed_bcoh=False, force_pos=False
             vk = rng.choice(["around1", "wide", "ints", "zeros"]) if rep else "around1"
             y = values(rng, n, vk)
             dk, dy = uncert(rng, n)
+            if nonfinite_dy and dy is not None and n >= 2 and rng.random() < 0.15:
+                # uncertainties near the ends of the floating-point range (their squares under- or overflow; the first-order rule has no squares)
+                dy = [v * rng.choice([1e-200, 1e-170, 1e180]) for v in dy]
+                dk = "extreme magnitudes"
+            if nonfinite_dy and n >= 2 and rng.random() < 0.12:
+                y = list(y)
+                y[rng.randrange(n)] = rng.choice([float("nan"), float("inf"), -float("inf")])      # a dead / saturated sample in the function values
+                vk = vk + "+nonfinite sample"
             if nonfinite_dy and dy is not None and n >= 2 and rng.random() < 0.2:
                 dy = list(dy)
                 dy[rng.randrange(n)] = float("inf")        # "value unknown / no weight"
@@ -276,12 +291,20 @@ def same_arrays_twice(pystog, case):
                 return "%s raises %s when the uncertainty is given as a %s" % (nm, type(e).__name__, form.__name__)
             if not all(same(u, w) for u, w in zip(first, other)):
                 return "%s gives a different result when the uncertainty is given as a %s instead of an array" % (nm, form.__name__)
-    # conversions are pointwise: column vectors of shape (n, 1) are converted element by element
+    # conversions are pointwise: column vectors (n, 1), row vectors (1, n) and single numbers are converted element by element
     if len(case["x"]) >= 2 and not any(v != v for v in (case["dy"] or [])):
+        for shape, what in (((-1, 1), "column vectors of shape (n, 1)"), ((1, -1), "row vectors of shape (1, n)")):
+            try:
+                col = f(x.reshape(shape), y.reshape(shape), None if d is None else d.reshape(shape), **kw)
+            except Exception as e:
+                return "%s raises %s for %s" % (nm, type(e).__name__, what)
+            if not all(same(u, w) for u, w in zip(first, col)):
+                return "%s converts %s differently from the same values as 1-D arrays" % (nm, what)
+        j = len(case["x"]) // 2
         try:
-            col = f(x.reshape(-1, 1), y.reshape(-1, 1), None if d is None else d.reshape(-1, 1), **kw)
+            one = f(x[j], y[j], None if d is None else d[j], **kw)
         except Exception as e:
-            return "%s raises %s for column vectors of shape (n, 1)" % (nm, type(e).__name__)
-        if not all(same(u, w) for u, w in zip(first, col)):
-            return "%s converts column vectors of shape (n, 1) differently from the same values as 1-D arrays" % nm
+            return "%s raises %s for a single number (0-d input)" % (nm, type(e).__name__)
+        if not all(same(np.asarray(u, float).ravel()[j:j + 1], w) for u, w in zip(first, one)):
+            return "%s converts a single number differently from the same value inside an array" % nm
     return None
